@@ -416,7 +416,7 @@ def run(run):
     run.bound = {"exponents": "0..2046 (all)", "mantissa_patterns": len(MANTISSAS) + EXTRA_MANTISSAS[th], "pow10": "1e-324..1e308, +-2 ulp",
                  "keys": KEYS, "max_keys": 4, "structure_depth": 3, "children": 2, "leaves": [repr(x) for x in LEAVES]}
     run.assumptions.append("oracle: mc/ref/jcs.py (RFC 8785 Appendix B vectors pass); shortest round-trip digits taken from CPython repr(float) on both sides")
-    run.pmap(run_case, cases)
+    run.pmap(run_case, cases, order_independent=True)
     run.part.sample({"kind": "double", "value": {"$f": (1e21).hex()}, "expected": "1e+21"})
     run.part.sample({"kind": "keyset", "value": {"$d": [["\U00010000", 0], ["", 1]]}, "expected": "{\"\U00010000\":0,\"\":1} (UTF-16 unit order: D800 < E000)"})
     run.part.sample({"kind": "structure", "value": [{"$d": [["b", [None]], ["a", {"$f": (-0.0).hex()}]]}], "expected": "[{\"a\":0,\"b\":[null]}]"})
